@@ -111,6 +111,8 @@ type Unsupported struct{ Msg string }
 func (u Unsupported) Error() string { return "unsupported: " + u.Msg }
 
 type specCtx struct {
+	landed     bool    // an inner merge ended exactly at this arm's join block
+	landedPhis []Value // ... with these values for the join block's phis
 	frame *Frame
 	join  *ssa.BasicBlock
 	g     *G
@@ -164,6 +166,7 @@ type State struct {
 	rsSites   map[string]bool
 	sizeMemo  map[types.Type]int
 	guard     *term.Node // guard of the alternative being processed by mapMux
+	subst     map[*term.Node]*term.Node
 }
 
 type inputVar struct {
@@ -307,10 +310,31 @@ func (st *State) gByID(id int) *G {
 
 // ---------------------------------------------------------------- path condition, model, feasibility
 
+// noteBinding records var == const facts of the path condition; later reads of
+// the variable (from registers or memory) see the constant.
+func (st *State) noteBinding(c *term.Node) {
+	switch {
+	case c.Op == term.OpEq && c.Args[0].Op == term.OpVar && c.Args[1].IsConst():
+		st.subst[c.Args[0]] = c.Args[1]
+	case c.Op == term.OpVar && c.W == 0:
+		st.subst[c] = st.b.True
+	case c.Op == term.OpBXor && c.K == 1 && len(c.Args) == 1 && c.Args[0].Op == term.OpVar:
+		st.subst[c.Args[0]] = st.b.False
+	}
+}
+
+func (st *State) rebuildSubst() {
+	st.subst = map[*term.Node]*term.Node{}
+	for q := st.pc; q != nil; q = q.prev {
+		st.noteBinding(q.cond)
+	}
+}
+
 func (st *State) pushPC(c *term.Node) {
 	if c == st.b.True {
 		return
 	}
+	st.noteBinding(c)
 	st.flushObligs()
 	n := 1
 	if st.pc != nil {
